@@ -191,7 +191,8 @@ def run_nsgroup(case: dict) -> list[tuple[str, str]]:
     outs = []
     for ser, items in ((gser, sinks), (rser, graphs)):
         opts = DR.make_options(cls, tuple(case["preset"]), case["frame_size"], True,
-                               RR.GROUPED_LT[cls], generalized=False, rdf_star=False, ns=True)
+                               RR.GROUPED_LT[cls], generalized=False, rdf_star=False,
+                               ns=case.get("ns", True))
         out = io.BytesIO()
         try:
             ser.grouped_stream_to_file((x for x in items), out, options=opts)
@@ -204,7 +205,8 @@ def run_nsgroup(case: dict) -> list[tuple[str, str]]:
         def shape(b):
             return [[r["kind"] for r in f["rows"]].count("namespace") for f in jwire.read_delimited(b)]
         return [("serializers-differ",
-                 f"grouped stream of {len(graphs)} graphs with declarations: generic wrote "
+                 f"grouped stream of {len(graphs)} graphs (declarations "
+                 f"{'on' if case.get('ns', True) else 'off'}): generic wrote "
                  f"{len(outs[0])} bytes (declarations per frame {shape(outs[0])}), rdflib wrote "
                  f"{len(outs[1])} bytes (declarations per frame {shape(outs[1])})")]
     return []
@@ -216,15 +218,18 @@ def nsgroup_shard(job) -> dict:
     acc = pool.Acc()
     preset = RR.R_SCOPES["r_prefix"]["presets"][pi]
     parts_list = [([0], [1]), ([0, 1], [2]), ([3], [3, 4]), ([0], [1], [2]), ([5], [], [0]),
-                  ([], [0, 1]), ([], [], [2])]
+                  ([], [0, 1]), ([], [], [2]), ([0], []), ([1], [], [])]
     bind_lists = [(), (0,), (0, 3), (3, 0), (7,)]
     for parts in parts_list:
         for b1 in bind_lists:
             for b2 in bind_lists:
                 bl = [b1, b2, b1][: len(parts)]
-                for fs in (1, 250):
+                for fs, ns in ((1, True), (250, True), (250, False)):
+                    if not ns and (b1 or b2):
+                        continue  # (without declarations the bindings play no part)
                     case = {"kind": "nsgroup", "cls": cls, "preset": list(preset), "frame_size": fs,
-                            "parts": [list(p) for p in parts], "bindings": [list(b) for b in bl]}
+                            "parts": [list(p) for p in parts], "bindings": [list(b) for b in bl],
+                            "ns": ns}
                     alpha = RR.alphabet("r_prefix", cls)
                     if not all(AL.fits(alpha[i], preset) for p in parts for i in p):
                         acc.counters["out_of_domain"] += 1
@@ -234,6 +239,42 @@ def nsgroup_shard(job) -> dict:
                     for k, msg in run_nsgroup(case):
                         acc.violation({"kind": "nsgroup", "fail": k}, f"{msg} case={case}", case)
     acc.sample({"kind": "nsgroup", "cls": cls, "preset": preset}, cap=1)
+    return acc.out()
+
+
+def run_strict(case: dict) -> list[tuple[str, str]]:
+    """The same header through the strict (logical_type_strict=True) parsers of both
+    integrations: accepted by both with the same statements, or refused by both."""
+    from mc.checks import c13  # noqa: PLC0415
+
+    data = c13.handmade(case["physical"], case["logical"], delimited=case["delimited"])
+    fails = []
+    for reader in ("flat", "grouped"):
+        for strict in (True, False):
+            g = c13.parse_with("generic", reader, data, strict)
+            r = c13.parse_with("rdflib", reader, data, strict)
+            if g[0] != r[0] or (g[0] == "ok" and g[1] != r[1]):
+                fails.append(("strict-disagree",
+                              f"physical {case['physical']} logical {case['logical']}, {reader} parser "
+                              f"with logical_type_strict={strict}: generic gives {g}, rdflib gives {r}"))
+    return fails
+
+
+def strict_shard(job) -> dict:
+    from mc.checks import c13  # noqa: PLC0415
+
+    DR.ensure_rdflib_plugin()
+    acc = pool.Acc()
+    for pt in (1, 2, 3):
+        for lt in c13.LOGICAL:
+            if not c13.pair_allowed(pt, lt):
+                continue
+            for dl in (True, False):
+                case = {"kind": "strict", "physical": pt, "logical": lt, "delimited": dl}
+                acc.evals += 1
+                acc.nontrivial += 1
+                for k, msg in run_strict(case):
+                    acc.violation({"kind": "strict", "fail": k}, f"{msg} case={case}", case)
     return acc.out()
 
 
@@ -283,6 +324,8 @@ def shard(job) -> dict:
         return bulk_shard(job)
     if job[0] == "nsgroup":
         return nsgroup_shard(job)
+    if job[0] == "strict":
+        return strict_shard(job)
     kind, scope, cls, pi, L, lo, hi = job
     DR.ensure_rdflib_plugin()
     acc = pool.Acc()
@@ -351,6 +394,7 @@ def run(ctx) -> None:
     for cls in ("triple", "quad"):
         for pi in range(4):
             jobs.append(("nsgroup", cls, pi))
+    jobs.append(("strict",))
     merged = pool.merge(pool.pmap(shard, jobs))
     ctx.add(merged)
     ctx.coverage.update(
@@ -379,4 +423,6 @@ def replay(case: dict) -> list:
         return [m for _, m in run_bulk(case)]
     if case["kind"] == "nsgroup":
         return [m for _, m in run_nsgroup(case)]
+    if case["kind"] == "strict":
+        return [m for _, m in run_strict(case)]
     return [m for _, m in run_case(case)]
